@@ -19,4 +19,21 @@ impl CompInfo {
     #[verifier::external_body] pub fn layout(&self, ctx: &BindgenContext) -> (r: Option<Layout>) ensures r == self.s_layout(ctx) { unimplemented!() }
 }
 
+// ---- BindgenContext::instantiate_template: where the layout of a new instantiation item comes from
+#[derive(Debug)]
+pub enum LayoutError { Invalid, Incomplete, Dependent, NotConstantSize, InvalidFieldName, Unknown }
+impl clang::Type {
+    // what libclang computes for THIS type (uninterpreted)
+    pub uninterp spec fn s_fallible_layout(&self, ctx: &BindgenContext) -> Result<Layout, LayoutError>;
+    pub uninterp spec fn s_const(&self) -> bool;
+    #[verifier::external_body] pub fn fallible_layout(&self, ctx: &BindgenContext) -> (r: Result<Layout, LayoutError>) ensures r == self.s_fallible_layout(ctx) { unimplemented!() }
+    #[verifier::external_body] pub fn is_const(&self) -> (r: bool) ensures r == self.s_const() { unimplemented!() }
+    #[verifier::external_body] pub fn canonical_type(&self) -> (r: clang::Type) { unimplemented!() }
+    #[verifier::external_body] pub fn declaration(&self) -> (r: Cursor) { unimplemented!() }
+}
+impl Cursor {
+    // the type of the cursor the instantiation was found at: NOT necessarily the instantiation (it may be a pointer to it)
+    #[verifier::external_body] pub fn cur_type(&self) -> (r: clang::Type) { unimplemented!() }
+}
+
 } // verus!
